@@ -139,6 +139,10 @@ def _check_all(obj, sols, vs, spin, best, expected):
     if best is None:
         if obj is not None:
             return Fail("no valid assignment, objective is %r, expected None" % (obj,), key="novalid-objective")
+        if vs and sols != []:
+            # "every such minimiser exactly once and nothing else": there is none
+            return Fail("no valid assignment, but all_solutions=True returned %r (expected no solution)" % (sols,),
+                        key="novalid-solutions")
         return None
     if obj is None or obj != best:
         return Fail("objective %r, true constrained minimum %r" % (obj, best), key="objective")
